@@ -108,6 +108,36 @@ Theorem C12_view_law ix vals vars fails objs thr : length fails = length vals ->
 Proof. exact (view_law ix vals vars fails objs thr). Qed.
 Print Assumptions C12_view_law.
 
+(* "Failure masks (none, some, all)": an observation reported as FAILED still carries a stored number (a placeholder, a sentinel
+   such as 1e30 or the largest double, whatever the client sent).  The normalisation never reads it.  `overwrite_failed fails vals
+   junk` is the history whose failed observations store the entries of `junk` instead (non-failed entries kept): the whole scaling
+   object of a metric - skip flag, branch, sign, MIDPOINT, SCALE, non-failed values, hence every scaled success, every lie and every
+   inverse - is the same, for one metric, for several, and through the view (where the failed rows hold the scaled lie). *)
+Theorem C12_failed_values_ignored vals fails junk o : smmi (overwrite_failed fails vals junk) fails o = smmi vals fails o.
+Proof. exact (smmi_overwrite_failed vals fails junk o). Qed.
+Print Assumptions C12_failed_values_ignored.
+
+Theorem C12_multi_failed_values_ignored m vals fails junk objs :
+  mmi m (overwrite_failed fails vals junk) fails objs = mmi m vals fails objs.
+Proof. exact (mmi_overwrite_failed m vals fails junk objs). Qed.
+Print Assumptions C12_multi_failed_values_ignored.
+
+Theorem C12_view_failed_values_ignored ix vals vars fails objs thr junk :
+  preprocess ix (overwrite_failed fails vals junk) vars fails objs thr = preprocess ix vals vars fails objs thr.
+Proof. exact (preprocess_overwrite_failed ix vals vars fails objs thr junk). Qed.
+Print Assumptions C12_view_failed_values_ignored.
+
+(* non-vacuity: the failed observation of C12_example storing 10^30 instead of 100 (overwrite_failed really changes the history);
+   midpoint 2 and scale 1/10 as before *)
+Example C12_example_failed_sentinel :
+  let big := 1000000000000000000000000000000 in
+  overwrite_failed [false; true; false; false] [3; 100; 1; 2] [0; big; 0; 0] = [3; big; 1; 2] /\
+  exists i, smmi [3; big; 1; 2] [false; true; false; false] Maximize = Some i /\ i_branch i = BRegular /\
+    i_mid i == 2 /\ i_scale i == 1 # 10 /\ rel_value i 3 == -(1 # 10) /\ rel_value i 1 == 1 # 10.
+Proof.
+  cbv zeta. split; [reflexivity|]. eexists. split; [vm_compute; reflexivity|]. vm_compute. repeat split; reflexivity || discriminate.
+Qed.
+
 (* non-vacuity: a regular maximised metric with one failure, an all-failed one, and a constant one at a large offset *)
 Example C12_example :
   (exists i, smmi [3; 100; 1; 2] [false; true; false; false] Maximize = Some i /\ i_branch i = BRegular /\
